@@ -133,6 +133,10 @@ SBEPPC_VARIANTS = {
     # stays silent (found with seeded change C09-4)
     "san": ["g++", "-std=c++17", "-O0", "-g1", "-fno-omit-frame-pointer",
             "-fsanitize=address,undefined", "-D_GLIBCXX_ASSERTIONS", "-DFMT_HEADER_ONLY=1"],
+    # libstdc++ debug mode (safe iterators): use of an iterator that an insertion/rehash invalidated, comparisons of
+    # iterators of different containers, ... -- library-level undefined behaviour that neither ASan nor UBSan sees.
+    # pugixml's interface passes no standard containers, so the uninstrumented shared library is compatible
+    "dbg": ["g++", "-std=c++17", "-O0", "-g1", "-D_GLIBCXX_DEBUG", "-D_GLIBCXX_DEBUG_PEDANTIC", "-DFMT_HEADER_ONLY=1"],
     # line-coverage build used by tools/coverage_sbeppc.sh only (VERIF_SBEPPC_OVERRIDE=cov): which generator and
     # validator lines did the workloads of the checks actually execute?  Never used for a verdict.
     "cov": ["g++", "-std=c++17", "-O0", "-g1", "--coverage", "-fprofile-update=atomic"],
